@@ -180,6 +180,14 @@ def classify_wrapper(fn, module):
             and isinstance(body[0].value.args[0], ast.Name) and body[0].value.args[0].id == p0:
         coerce = True
         body = body[1:]
+    # `if not isinstance(a, SparseArray): a = asCOO(a, ...)`: converts only NON-sparse receivers; a sparse receiver
+    # reaches its own method unchanged (not a coercion in the sense of w_coerce)
+    if len(body) == 2 and isinstance(body[0], ast.If) and not body[0].orelse and len(body[0].body) == 1 \
+            and ast.unparse(body[0].test) == f"not isinstance({p0}, SparseArray)" \
+            and isinstance(body[0].body[0], ast.Assign) and ast.unparse(body[0].body[0].targets[0]) == p0 \
+            and isinstance(body[0].body[0].value, ast.Call) and ast.unparse(body[0].body[0].value.func) == "asCOO" \
+            and body[0].body[0].value.args and ast.unparse(body[0].body[0].value.args[0]) == p0:
+        body = body[1:]
     if len(body) != 1 or not isinstance(body[0], ast.Return) or body[0].value is None:
         return None
     v = body[0].value
@@ -409,6 +417,44 @@ def _mixin_table(np_mod):
             out[tg.id] = ("mixin_inplace", u)
     if "__add__" not in out or "__radd__" not in out:
         raise ShapeError("mixin table incomplete")
+    return out
+
+
+def _dup_body(fn):
+    """own body of a method that duplicates a ufunc path (isnan, isinf ...):
+       ('ctor', class name, [(keyword, literal)])   last statement `return COO(..., k=v, ...)`
+       ('delegate', conversion method, method)      `return self.tocoo().m().asformat(...)`
+       ('other',)"""
+    body = _strip_doc(fn.body)
+    if not body or not isinstance(body[-1], ast.Return) or not isinstance(body[-1].value, ast.Call):
+        return ("other",)
+    c = body[-1].value
+    if isinstance(c.func, ast.Name) and c.func.id in ("COO", "GCXS", "DOK", "cls"):
+        kws = []
+        for k in c.keywords:
+            if k.arg is None:
+                return ("other",)
+            kws.append((k.arg, lit_of(k.value)))
+        return ("ctor", c.func.id, kws)
+    # self.<conv>().<m>().asformat(...)
+    if isinstance(c.func, ast.Attribute) and c.func.attr == "asformat" and isinstance(c.func.value, ast.Call):
+        inner = c.func.value
+        if isinstance(inner.func, ast.Attribute) and not inner.args and not inner.keywords \
+                and isinstance(inner.func.value, ast.Call) and isinstance(inner.func.value.func, ast.Attribute) \
+                and isinstance(inner.func.value.func.value, ast.Name) and inner.func.value.func.value.id == "self" \
+                and not inner.func.value.args:
+            return ("delegate", inner.func.value.func.attr, inner.func.attr)
+    return ("other",)
+
+
+def extract_dup_bodies(repo, np_mod):
+    out = []
+    for c in CLASSES:
+        node = _class_node(repo, c)
+        for n in node.body:
+            if isinstance(n, ast.FunctionDef) and isinstance(getattr(np_mod, n.name, None), np_mod.ufunc) \
+                    and classify_body(n) == ("own",):
+                out.append((c, n.name, _dup_body(n)))
     return out
 
 
@@ -954,6 +1000,7 @@ def tables(repo):
         "array_namespace": extract_array_namespace(repo),
         "numpy": nptab,
         "numpy_version": np_mod.__version__,
+        "dup_bodies": extract_dup_bodies(repo, np_mod),
     }
     T["op_classes"] = build_op_classes(ns, attrs, inst, nptab, np_mod)
     # NumPy's own signatures of the functions that the namespace wraps (for the call-shape compatibility check)
@@ -1036,6 +1083,18 @@ def generate(repo):
     A("")
     A("Definition op_classes : list (string * list spelling) := [")
     A(";\n".join(f"  ({q(k)}, [" + "; ".join(cspelling(s) for s in sps) + "])" for k, sps in T["op_classes"]) + "].")
+    A("")
+    A("Definition dup_bodies : list (string * string * dup_body) := [")
+    items = []
+    for c, m, b in T["dup_bodies"]:
+        if b[0] == "ctor":
+            cb = f"DupCtor {q(b[1])} [" + "; ".join(f"({q(k)}, {clit(v)})" for k, v in b[2]) + "]"
+        elif b[0] == "delegate":
+            cb = f"DupDelegate {q(b[1])} {q(b[2])}"
+        else:
+            cb = "DupOther"
+        items.append(f"  ({q(c)}, {q(m)}, {cb})")
+    A(";\n".join(items) + "].")
     A("")
     A("Definition tables : dtables :=")
     A("  mkTables namespace class_attrs instance_attrs af_steps au_facts array_guard array_namespace_module numpy_names.")
